@@ -31,7 +31,11 @@ LEVEL_TEXT = ('Theorems for all cache contents (lists of tiles with arbitrary in
 LEVEL_NOTE = ('Streams: single tasks (all backends, bbox and polygon coverages, linked single-colour tiles, a file that another '
               'process removes during the directory walk, sqlite backends under the time zones EST5 / XXX-2 / XXX-5:30), several '
               'tasks per cleanup() call, directory cleanup with a real ProgressStore interrupted at a level boundary and continued, '
-              'levels ranges and remove_all/remove_before of the real configuration loader.  '
+              'levels ranges and remove_all/remove_before of the real configuration loader; tasks built by the loader from '
+              'mapproxy.yaml + seed.yaml (bbox, polygon and empty coverages) cleaned end to end; directories with a time of their '
+              'own (a newer tile in an older directory); one schedule in which the worker needs longer for its first batch than '
+              'the 5 s the walker waits for a queue slot (the retry loop of TileWorkerPool.process is not part of the model: the '
+              'model removes the stale tiles of every processed meta tile).  '
               'Trusted: Coq kernel, the hand-written model Cleanup.v, the harness.  The pyramid descent of TileWalker._walk is '
               'not modelled here (C11): the tile-walk theorems carry the hypothesis that the walk processes exactly the meta '
               'tiles of the selected levels that intersect the coverage; that hypothesis is checked by Coq on every walk the '
